@@ -76,8 +76,11 @@ def gen_scenario(seed, profile="rebalance"):
                 events.append([te, "move_coordinator", rng.randint(1, nb)])
             elif r < 0.8:
                 events.append([te, "grow", rng.choice(sorted(topics))])
-            else:
+            elif r < 0.9:
                 events.append([te, "reject_commits", rng.randrange(nm), rng.choice((22, 25, 27))])
+            else:
+                events.append([te, "silence_group_requests", rng.randrange(nm), rng.choice(("Heartbeat", "Heartbeat",
+                                                                                           "SyncGroup"))])
     events.sort(key=lambda e: e[0])
     return dict(seed=seed, profile=profile, brokers=list(range(1, nb + 1)), topics=topics, members=members,
                 events=events, faults=[], latency=rng.choice((0.0, 0.002, 0.02)), horizon=22.0,
@@ -261,6 +264,10 @@ def _apply_event(tr, e):
     elif kind == "foreign_leave":
         cl.remove_foreign_member(GROUP, e[2])
         tr.emit(None, "foreign_member_left", member_id=e[2])
+    elif kind == "silence_group_requests":
+        m = tr.members["m%d" % e[2]]
+        cl.faults.add(dict(api=e[3], client_id=m.name.encode(), nth=[0], after=tr.w.clock.seconds(),
+                           action=dict(kind="silent", apply=False)))
     elif kind == "reject_commits":
         m = tr.members["m%d" % e[2]]
         cl.faults.add(dict(api="OffsetCommit", client_id=m.name.encode(), nth=[0, 1], after=tr.w.clock.seconds(),
@@ -348,9 +355,22 @@ def _setup_member(tr, m, w, cl, emit, by_client, srv_by_corr, rng, ConsumerGroup
             finish()
             return None
         if beh[0] == "fail":
+            rec["failed"] = True
             finish()
             raise ProcessorBoom("processor failure %d" % k)
         d = Deferred()
+        if beh[0] == "fail_async":
+            def boom():
+                if not d.called:
+                    rec["failed"] = True
+                    rec["done"] = dict(t=w.clock.seconds(), step=w.clock.steps, cancelled=False)
+                    emit(m.name, "proc_end", topic=rec["topic"], partition=rec["partition"], offsets=[],
+                         cid=rec["cid"], call=rec)
+                    d.errback(ProcessorBoom("asynchronous processor failure %d" % k))
+            d.addErrback(lambda f: (rec.__setitem__("done", rec["done"] or dict(t=w.clock.seconds(), step=w.clock.steps,
+                                                                                  cancelled=True)), f)[1])
+            w.clock.labelled(beh[1], "proc.fail." + m.name, boom)
+            return d
         d.addBoth(finish)
         w.clock.labelled(beh[1], "proc.done." + m.name, lambda: (not d.called) and d.callback(None))
         return d
